@@ -1080,3 +1080,4 @@ LEVEL_NOTE = ("Trusted: Lean kernel, axioms <= {propext, Classical.choice, Quot.
               "polars. A DataFrame is modelled as a list of records plus column normalisation; attribute values are null|int|str; one-"
               "character separators; exceptions are 'rejected'.")
 TECHNIQUE = "Lean 4 proof (structural induction; parser stack invariant; generated-table side conditions by decide) + correspondence check against the real exporters/constructors"
+RULE = RULE + ' Fourth session: for a third of the attr_dict requests the requested attributes are read-only properties of a user subclass (backed by private fields); one tree beyond 1000 nodes.'
